@@ -29,6 +29,7 @@ import Driver.OpsCmd
 import Driver.OpsCmd2
 import Driver.OpsCompose
 import Driver.OpsCheck
+import Driver.OpsSelfplay
 namespace Driver
 
 def handlers : List Handler := [
@@ -62,6 +63,7 @@ def handlers : List Handler := [
   handleCmd2,
   handleCompose,
   handleCheck,
+  handleSelfplay,
 ]
 
 def step (st : St) (line : String) : St × String :=
